@@ -319,7 +319,28 @@ def scenarios(prop, tier, rng):
                 sc['thr2'] = min(Fr(1), sc['thr'] + rng.choice([0, Fr(1, 4), Fr(1, 2)]))
             if prop == 'C04' and rng.random() < 0.3:
                 sc['kw']['mrts'] = 'auto'
-            if prop == 'C14' or (prop in ('C04', 'C05') and N > 2 and rng.random() < 0.5):
+            if prop == 'C04' and rng.random() < 0.25:
+                # 'auto' + a proper index subset + a pair whose coincidence depends on the threshold:
+                # a lone spike next to a doublet, plus a third train (dense or empty) that moves the
+                # pooled threshold away from the one of the selected pair
+                _, ts_, te_ = sc['trains'][0]
+                x0 = ts_ + rng.choice([1, Fr(3, 2), 2])
+                gap = rng.choice([Fr(1, 2), 1, Fr(3, 2)])
+                lone = [x0]
+                doublet = [x0 + gap, x0 + gap + rng.choice([Fr(1, 4), Fr(1, 2)])]
+                step = rng.choice([Fr(1, 4), Fr(1, 2)])
+                dense, x = [], ts_ + step
+                while x < te_:
+                    dense.append(x); x += step
+                third = rng.choice([dense, dense, []])
+                trio = [(lone, ts_, te_), ([v for v in doublet if v <= te_], ts_, te_), (third, ts_, te_)]
+                order = rng.sample(range(3), 3)
+                sc['trains'] = [trio[k] for k in order] + list(sc['trains'][3:])
+                N = len(sc['trains'])
+                sc['kw']['mrts'] = 'auto'
+                sc['kw']['max_tau'] = 0
+                sc['indices'] = [order.index(0), order.index(1)] if rng.random() < 0.5 else [order.index(1), order.index(0)]
+            if prop == 'C14' or (prop in ('C04', 'C05') and N > 2 and 'indices' not in sc and rng.random() < 0.5):
                 k = rng.randint(2, N)
                 sc['indices'] = rng.sample(range(N), k)
             if prop == 'C06':
